@@ -118,4 +118,50 @@ Proof.
       rewrite (wsum_shift sc1 p (p + 1)) by (try lia; intros i k0 H; apply (Hnp i k0); apply (Hsc1 i k0 H)).
       fold sc1 in Hn. lia.
 Qed.
+
+Lemma inside_site i : In i sites -> inside i = false.
+Proof.
+  intros Hi. unfold inside. destruct (existsb _ sites) eqn:E; [|reflexivity].
+  apply existsb_exists in E. destruct E as (j & Hj & E). apply andb_prop in E. destruct E as [E1 E2].
+  apply Nat.ltb_lt in E1. apply Nat.ltb_lt in E2.
+  destruct (Nat.eq_dec i j) as [->|Hne]; [lia|]. destruct (sites_apart i j Hi Hj Hne); lia.
+Qed.
+
+(* every position that is not strictly inside a stub is reached from the start of the body *)
+Theorem walk_reach_k : forall p s,
+  (p <= P1)%nat -> inside p = false -> Inv s -> pc s = addr 0 ->
+  exists s' m, run v L m s = (Next s', m) /\ pc s' = addr p /\ Inv s'.
+Proof.
+  induction p as [p IH] using lt_wf_ind. intros s Hp Hin HI Hpc.
+  destruct p as [|q].
+  - exists s, O. split; [reflexivity|]. split; assumption.
+  - destruct (existsb (fun i => Nat.eqb (i + k) (S q)) sites) eqn:EA.
+    + (* the position right after a stub *)
+      apply existsb_exists in EA. destruct EA as (i & Hi & Ei). apply Nat.eqb_eq in Ei.
+      destruct (IH i ltac:(lia) s ltac:(lia) (inside_site i Hi) HI Hpc) as (s1 & m1 & R1 & Pc1 & I1).
+      destruct (site_pair_k i Hi) as (n & Hn).
+      destruct (step_site i n s1 Hn I1 Pc1) as (s2 & R2 & Pc2 & I2).
+      exists s2, (m1 + n)%nat. split; [rewrite (run_app v L m1 n s s1 R1), R2; reflexivity|].
+      split; [rewrite Pc2, Ei; reflexivity|exact I2].
+    + (* a plain position follows a plain position *)
+      assert (HnA : forall i, In i sites -> (i + k)%nat <> S q).
+      { intros i Hi E. assert (existsb (fun i => Nat.eqb (i + k) (S q)) sites = true); [|congruence].
+        apply existsb_exists. exists i. split; [exact Hi|]. apply Nat.eqb_eq. exact E. }
+      assert (Hinq : forall i, In i sites -> ~ (i < S q < i + k)%nat).
+      { intros i Hi Hc. unfold inside in Hin.
+        assert (existsb (fun i => Nat.ltb i (S q) && Nat.ltb (S q) (i + k)) sites = true); [|congruence].
+        apply existsb_exists. exists i. split; [exact Hi|]. apply andb_true_intro. split; apply Nat.ltb_lt; lia. }
+      assert (Hsq : is_site sites q = false).
+      { destruct (is_site sites q) eqn:E; [|reflexivity]. apply is_site_In in E.
+        pose proof (HnA q E). pose proof (Hinq q E). lia. }
+      assert (Hiq : inside q = false).
+      { clear EA. unfold inside. destruct (existsb (fun i => Nat.ltb i q && Nat.ltb q (i + k)) sites) eqn:E; [|reflexivity].
+        apply existsb_exists in E. destruct E as (i & Hi & E). apply andb_prop in E. destruct E as [E1 E2].
+        apply Nat.ltb_lt in E1. apply Nat.ltb_lt in E2.
+        pose proof (HnA i Hi). pose proof (Hinq i Hi). lia. }
+      destruct (IH q ltac:(lia) s ltac:(lia) Hiq HI Hpc) as (s1 & m1 & R1 & Pc1 & I1).
+      destruct (step_plain q s1 ltac:(lia) Hsq Hiq I1 Pc1) as (s2 & R2 & Pc2 & I2).
+      exists s2, (m1 + 1)%nat. split; [rewrite (run_app v L m1 1 s s1 R1), R2; reflexivity|].
+      split; [rewrite Pc2; f_equal; lia|exact I2].
+Qed.
 End WalkK.
